@@ -223,36 +223,38 @@ inductive StateFn where
   | code | lineComment | blockComment | stringLiteral
   deriving DecidableEq, Repr, Inhabited
 
-/-- `lexCode`. The three `multiRuneTokens` have pairwise different first bytes, so the
-    (random) map iteration order of the Go loop does not matter. -/
+/-- `lexCode` after `r := l.peek()` returned the rune `r` (not `eof`). The three
+    `multiRuneTokens` have pairwise different first bytes, so the (random) map iteration
+    order of the Go loop does not matter. -/
+def lexCodeTok (s : Array UInt8) (r : Nat) (l : L) : Option StateFn × L :=
+  -- site: l.input[l.pos:] (multi-rune tokens, scanCommentBegin)
+  if s.size < l.pos then (none, l.setPanic)
+  else if hasPrefixAt s l.pos b!"=>" then (some .code, emit s .opArrow { l with pos := l.pos + 2 })
+  else if hasPrefixAt s l.pos b!"||" then (some .code, emit s .opOr { l with pos := l.pos + 2 })
+  else if hasPrefixAt s l.pos b!"&&" then (some .code, emit s .opAnd { l with pos := l.pos + 2 })
+  else if hasPrefixAt s l.pos b!"//" then (some .lineComment, { l with pos := l.pos + 2 })
+  else if hasPrefixAt s l.pos b!"/*" then (some .blockComment, { l with pos := l.pos + 2 })
+  else match oneRuneToken r with
+    | some t => (some .code, emit s t (next s l).2)
+    | none =>
+      if r == 39 || r == 34 then (some .stringLiteral, l)
+      else
+        let sc := scanIdentifier s l
+        if sc.1 then
+          -- site: l.input[l.start:l.pos] (keyword lookup)
+          if sc.2.start ≤ sc.2.pos ∧ sc.2.pos ≤ s.size then
+            match keyword (s.extract sc.2.start sc.2.pos).toList with
+            | some kw => (some .code, emit s kw sc.2)
+            | none => (some .code, emit s .identifier sc.2)
+          else (none, sc.2.setPanic)
+        else (none, errorf s .unexpectedToken sc.2)
+
+/-- `lexCode`. -/
 def lexCode (s : Array UInt8) (l : L) : Option StateFn × L :=
-  let l := ignore (acceptRun s isSpace (s.size + 1) l)
-  let pk := peek s l
-  let l := pk.2
+  let pk := peek s (ignore (acceptRun s isSpace (s.size + 1) l))
   match pk.1 with
-  | none => (none, emit s .eof l)
-  | some r =>
-    -- site: l.input[l.pos:] (multi-rune tokens, scanCommentBegin)
-    if s.size < l.pos then (none, l.setPanic)
-    else if hasPrefixAt s l.pos b!"=>" then (some .code, emit s .opArrow { l with pos := l.pos + 2 })
-    else if hasPrefixAt s l.pos b!"||" then (some .code, emit s .opOr { l with pos := l.pos + 2 })
-    else if hasPrefixAt s l.pos b!"&&" then (some .code, emit s .opAnd { l with pos := l.pos + 2 })
-    else if hasPrefixAt s l.pos b!"//" then (some .lineComment, { l with pos := l.pos + 2 })
-    else if hasPrefixAt s l.pos b!"/*" then (some .blockComment, { l with pos := l.pos + 2 })
-    else match oneRuneToken r with
-      | some t => (some .code, emit s t (next s l).2)
-      | none =>
-        if r == 39 || r == 34 then (some .stringLiteral, l)
-        else
-          let sc := scanIdentifier s l
-          if sc.1 then
-            -- site: l.input[l.start:l.pos] (keyword lookup)
-            if sc.2.start ≤ sc.2.pos ∧ sc.2.pos ≤ s.size then
-              match keyword (s.extract sc.2.start sc.2.pos).toList with
-              | some kw => (some .code, emit s kw sc.2)
-              | none => (some .code, emit s .identifier sc.2)
-            else (none, sc.2.setPanic)
-          else (none, errorf s .unexpectedToken sc.2)
+  | none => (none, emit s .eof pk.2)
+  | some r => lexCodeTok s r pk.2
 
 /-- The loop of `lexLineComment`. -/
 def lineCommentLoop (s : Array UInt8) : Nat → L → Option StateFn × L
